@@ -141,6 +141,10 @@ def gen_cases(tier, seed):
       kind = spec['stack'] + '/pinned'
     else:
       spec = scengen.gen(r, profile=['timeouts', 'mixed', 'faults'][(i // 3) % 3], idx=i)
+      for ep in spec['endpoints']:
+        for cid, a in list((ep.get('plan') or {}).items()):
+          if a.get('act') == 'bogus':       # a peer answering on a tag of its own choosing can "answer" a request that
+            ep['plan'][cid] = {'act': 'reply', 'delay': a.get('delay', 0)}   # is still queued: outside this property
       kind = spec['stack'] + '/general'
     out.append({'kind': kind, 'spec': spec})
   return out
